@@ -319,7 +319,7 @@ def main(tier):
         elif dt > 20 + size / 2000.0:
             bad = "took %.1fs for %d bytes" % (dt, size)
         if bad:
-            ck.violation("input '%s': %s" % (label, bad), dict(replay, stderr=err[-1500:], exit=rc, seconds=dt))
+            ck.violation("input '%s': %s" % (label, bad), dict(replay, stderr=err[-1500:], exit=rc, seconds=dt), independent=True)
         return bad is None
 
     bads = bad_contents(rng, good["good0.py"])
@@ -356,7 +356,7 @@ def main(tier):
                 if got.get(sec) != base[sec]:
                     ck.violation("file '%s' changed the %s results of the other files: %s"
                                  % (label, sec, [x for x in base[sec] if x not in (got.get(sec) or [])][:3] + [x for x in (got.get(sec) or []) if x not in base[sec]][:3]),
-                                 dict(rep, section=sec, expected=base[sec][:20], got=(got.get(sec) or [])[:20]))
+                                 dict(rep, section=sec, expected=base[sec][:20], got=(got.get(sec) or [])[:20]), independent=True)
                     break
     # ----- bad content in every role of a package project (package __init__, imported module, sub-package, importer)
     stats["role_runs"] = 0
@@ -407,7 +407,7 @@ def main(tier):
                     ck.violation("'%s' as %s changed the %s results of the other files: %s"
                                  % (label, role, sec, [x for x in role_base[role][sec] if x not in (got.get(sec) or [])][:3]
                                     + [x for x in (got.get(sec) or []) if x not in role_base[role][sec]][:3]),
-                                 dict(rep, section=sec, expected=role_base[role][sec][:20], got=(got.get(sec) or [])[:20]))
+                                 dict(rep, section=sec, expected=role_base[role][sec][:20], got=(got.get(sec) or [])[:20]), independent=True)
                     break
     # ----- valid Python in unusual surface form: continuations after every keyword/operator kind, newlines and comments inside
     # brackets (same AST under CPython): no crash, and the per-function results are those of the plain file
@@ -448,7 +448,7 @@ def main(tier):
                 if rows != base_rows:
                     diff = [x for x in base_rows if x not in rows][:3] + [x for x in rows if x not in base_rows][:3]
                     ck.violation("valid file %s rewritten with %s (same AST under CPython) gets different per-function results: %s" % (bname, label, diff),
-                                 dict(rep, expected=base_rows[:40], got=rows[:40]))
+                                 dict(rep, expected=base_rows[:40], got=rows[:40]), independent=True)
     # ----- the opt-in analyses and the other sub-command on valid files: `check` (incl. --select mockdata, whose heuristics scan every
     # identifier and string for keywords) on a file that spells every mock keyword at the start, inside and at the end of longer names,
     # repeated, overlapping, in strings, addresses and URLs
@@ -489,7 +489,7 @@ def main(tier):
         rep = os.path.join(fd, ".pyscn", "reports")
         ext = fmt[2:]
         if not (os.path.isdir(rep) and any(f.endswith("." + ext) for f in os.listdir(rep))):
-            ck.violation("no %s report was written for a project containing an unparsable file" % ext, {"kind": "format", "format": fmt, "stderr": r[2][-500:]})
+            ck.violation("no %s report was written for a project containing an unparsable file" % ext, {"kind": "format", "format": fmt, "stderr": r[2][-500:]}, independent=True)
     # ----- deep nesting: terminates, time roughly proportional to size
     for kind in ("if", "for", "try"):
         times = []
@@ -542,7 +542,7 @@ def main(tier):
             ck.known_finding(kf)
         else:
             ck.violation("clone detection time is not proportional to the input size: an elif chain of 10 clauses takes %.1fs, of 20 clauses %.1fs"
-                         % (ct[10], ct[20]), {"kind": "breadth-clones", "seconds": stats["clone_elif_chain_seconds"]})
+                         % (ct[10], ct[20]), {"kind": "breadth-clones", "seconds": stats["clone_elif_chain_seconds"]}, independent=True)
     # ----- longest import chain (calculateMaxDepth): (1) value tie with Deps/DepthCost.v on small graphs, import cycles included, modules
     # listed in a shuffled order; (2) time proportional to modules + imports on DAGs of every density.  Finding F21 (the search
     # enumerated simple paths: 2^n on a dense DAG) is repaired: a recurrence is a VIOLATION.
@@ -629,7 +629,7 @@ def main(tier):
             except subprocess.TimeoutExpired:
                 ck.violation("calculateMaxDepth did not finish within 120 s on DAGs of at most %d modules (%s)"
                              % (max(n for _, n, _ in stage), "; ".join(l for l, _, _ in stage)),
-                             {"kind": "depth-time", "graphs": [l for l, _, _ in stage], "micros_before": stats["depth_time_micros"]})
+                             {"kind": "depth-time", "graphs": [l for l, _, _ in stage], "micros_before": stats["depth_time_micros"]}, independent=True)
                 break
             for k, (label, n, e) in enumerate(stage):
                 micros = min(max(1, x.get("micros", 1)) for x in t[3 * k:3 * k + 3])
@@ -644,12 +644,12 @@ def main(tier):
                     longest = 2 * ((n - 1) // 3)
                 if longest is not None and t[3 * k].get("depth") != longest:
                     ck.violation("calculateMaxDepth on a %s: %s, the longest import chain has %d imports" % (label, t[3 * k].get("depth"), longest),
-                                 {"kind": "depth-value", "graph": label, "modules": n, "edges": e[:400]})
+                                 {"kind": "depth-value", "graph": label, "modules": n, "edges": e[:400]}, independent=True)
                 bound = 20000 + 20 * (n + len(e))
                 if micros > bound and not stop:
                     stop = True
                     ck.violation("calculateMaxDepth time is not proportional to the size of the import graph: %s (%d imports) takes %d us (bound %d us = 20 ms + 20 us per module and import)"
-                                 % (label, len(e), micros, bound), {"kind": "depth-time", "graph": label, "modules": n, "imports": len(e), "micros": stats["depth_time_micros"]})
+                                 % (label, len(e), micros, bound), {"kind": "depth-time", "graph": label, "modules": n, "imports": len(e), "micros": stats["depth_time_micros"]}, independent=True)
             if stop:
                 break
     # ----- what is left of F21: inside strongly connected parts the search still enumerates simple paths (theorem
@@ -668,7 +668,7 @@ def main(tier):
                     ck.known_finding(kf)
                 else:
                     ck.violation("calculateMaxDepth time explodes on a complete import digraph: 6 modules %d us, 8 modules %d us, 9 modules %d us" % tuple(mq),
-                                 {"kind": "depth-time-cyclic", "micros": stats["clique_micros"]})
+                                 {"kind": "depth-time-cyclic", "micros": stats["clique_micros"]}, independent=True)
         except Exception as ex_:
             ck.notes.append("clique timing not measured: " + str(ex_)[-200:])
     ck.samples = [{"label": l, "content_head": c[:60].decode("latin-1")} for l, c in bads[:6]]
